@@ -1581,4 +1581,311 @@ theorem step_keeps_others (cfg : Cfg) (ok : CfgOK cfg) (h : Heap) (op : Op) (r :
                 rw [hlive2, hlive]
                 exact mem_remove_of_ne (List.mem_cons_of_mem _ hc) hp
 
+
+/-! ### pools -/
+
+/-- the cells of a zone of `n` elements of `e` bytes: offsets `0, e, …, (n-1)e` -/
+def cells (e n : Nat) : List Nat := (List.range n).map (· * e)
+
+theorem engageLoop_eq (e n : Nat) (he : 0 < e) : ∀ fuel k fl, k ≤ n → n - k < fuel →
+    engageLoop e (n * e) fuel (k * e) fl = ((List.range' k (n - k)).map (· * e)).reverse ++ fl := by
+  intro fuel
+  induction fuel with
+  | zero => intro k fl _ h; omega
+  | succ fuel ih =>
+    intro k fl hk hf
+    simp only [engageLoop]
+    by_cases hlt : k < n
+    · have h1 : k * e < n * e := Nat.mul_lt_mul_of_pos_right hlt he
+      rw [if_pos h1]
+      have h2 : k * e + e = (k + 1) * e := by rw [Nat.add_mul, Nat.one_mul]
+      rw [h2, ih (k + 1) (k * e :: fl) (by omega) (by omega)]
+      have h3 : n - k = (n - (k + 1)) + 1 := by omega
+      rw [h3, List.range'_succ]
+      simp
+    · have hkn : k = n := by omega
+      subst hkn
+      simp
+
+theorem engage_eq (e n : Nat) (he : 0 < e) :
+    (Pool.init.engage (n * e) e).free = (cells e n).reverse := by
+  have := engageLoop_eq e n he (n * e + 1) 0 [] (by omega) (by
+    have : n ≤ n * e := Nat.le_mul_of_pos_right n he
+    omega)
+  simp only [Nat.zero_mul, Nat.sub_zero, List.append_nil] at this
+  simp only [Pool.engage, Pool.init, cells, this, List.range_eq_range']
+
+theorem mem_cells {e n c : Nat} : c ∈ cells e n ↔ ∃ i, i < n ∧ c = i * e := by
+  simp only [cells, List.mem_map, List.mem_range]
+  constructor
+  · rintro ⟨i, hi, rfl⟩; exact ⟨i, hi, rfl⟩
+  · rintro ⟨i, hi, rfl⟩; exact ⟨i, hi, rfl⟩
+
+theorem cells_nodup (e n : Nat) (he : 0 < e) : (cells e n).Nodup := by
+  unfold cells
+  rw [List.Nodup, List.pairwise_map]
+  exact (List.nodup_range (n := n)).imp (fun {a b} hab h => hab (Nat.eq_of_mul_eq_mul_right he h))
+
+theorem cells_length (e n : Nat) : (cells e n).length = n := by simp [cells]
+
+/-- pool invariant: free list and handed-out cells together are exactly the cells of the zone -/
+def PInv (e n : Nat) (s : PState) : Prop := (s.pool.free ++ s.live).Perm (cells e n)
+
+theorem PInv.init (e n : Nat) (he : 0 < e) : PInv e n ⟨Pool.init.engage (n * e) e, []⟩ := by
+  unfold PInv
+  simp only [List.append_nil, engage_eq e n he]
+  exact List.reverse_perm _
+
+theorem pstep_inv {e n : Nat} {s s' : PState} {op : POp} {ret : Option Nat} (hi : PInv e n s)
+    (hs : pstep s op = some (s', ret)) : PInv e n s' := by
+  unfold PInv at *
+  cases op with
+  | alloc =>
+    simp only [pstep, Pool.alloc] at hs
+    split at hs
+    · rename_i heq
+      split at heq
+      · cases heq; cases hs; exact hi
+      · cases heq
+    · rename_i c p heq
+      split at heq
+      · cases heq
+      · rename_i c' rest hfree
+        cases heq; cases hs
+        simp only
+        rw [hfree] at hi
+        exact (List.perm_middle).trans hi
+  | free c =>
+    simp only [pstep] at hs
+    split at hs
+    · rename_i hc
+      cases hs
+      simp only [Pool.release]
+      have hc' : c ∈ s.live := by simpa using hc
+      have h1 : (c :: s.live.erase c).Perm s.live := (List.perm_cons_erase hc').symm
+      have h2 : (c :: s.pool.free ++ s.live.erase c).Perm (s.pool.free ++ c :: s.live.erase c) := by
+        simpa using (List.perm_middle (l₁ := s.pool.free) (a := c) (l₂ := s.live.erase c)).symm
+      exact h2.trans ((List.Perm.append_left _ h1).trans hi)
+    · cases hs
+
+theorem prun_inv {e n : Nat} {ops : List POp} {s s' : PState} (hi : PInv e n s)
+    (hr : prun s ops = some s') : PInv e n s' := by
+  induction ops generalizing s with
+  | nil => simp only [prun] at hr; cases hr; exact hi
+  | cons op ops ih =>
+    simp only [prun] at hr
+    split at hr
+    · cases hr
+    · rename_i s1 ret hs
+      exact ih (pstep_inv hi hs) hr
+
+
+theorem PInv.facts {e n : Nat} {s : PState} (he : 0 < e) (hi : PInv e n s) :
+    s.live.Nodup ∧ s.pool.free.Nodup ∧ (∀ c, c ∈ s.live → c ∉ s.pool.free) ∧
+    (∀ c, c ∈ s.live ∨ c ∈ s.pool.free → ∃ i, i < n ∧ c = i * e) ∧
+    s.pool.free.length + s.live.length = n := by
+  unfold PInv at hi
+  have hnd : (s.pool.free ++ s.live).Nodup := hi.nodup_iff.2 (cells_nodup e n he)
+  rw [List.nodup_append] at hnd
+  refine ⟨hnd.2.1, hnd.1, fun c hc hf => hnd.2.2 c hf c hc rfl, fun c hc => ?_, ?_⟩
+  · apply mem_cells.1
+    apply hi.mem_iff.1
+    rcases hc with hc | hc <;> simp [hc]
+  · have := hi.length_eq
+    simpa [cells_length] using this
+
+/-- two different cells are different byte ranges -/
+theorem cells_disjoint {e i j : Nat} (h : i * e ≠ j * e) : i * e + e ≤ j * e ∨ j * e + e ≤ i * e := by
+  rcases Nat.lt_trichotomy i j with hlt | heq | hgt
+  · left
+    have : (i + 1) * e ≤ j * e := Nat.mul_le_mul_right e hlt
+    rw [Nat.add_mul, Nat.one_mul] at this; exact this
+  · subst heq; exact absurd rfl h
+  · right
+    have : (j + 1) * e ≤ i * e := Nat.mul_le_mul_right e hgt
+    rw [Nat.add_mul, Nat.one_mul] at this; exact this
+
+theorem cell_in_zone {e n i : Nat} (hi : i < n) : i * e + e ≤ n * e := by
+  have : (i + 1) * e ≤ n * e := Nat.mul_le_mul_right e hi
+  rw [Nat.add_mul, Nat.one_mul] at this; exact this
+
+/-! igris::pool -/
+
+def IInv (e n : Nat) (s : IState) : Prop :=
+  PInv e n ⟨s.pool.head, s.live⟩ ∧ s.pool.count = (s.pool.head.free.length : Int) ∧
+  s.pool.size = n * e ∧ s.pool.elemsz = e
+
+theorem IInv.init (e n : Nat) (he : 0 < e) : IInv e n ⟨IPool.init (n * e) e, []⟩ := by
+  refine ⟨PInv.init e n he, ?_, rfl, rfl⟩
+  simp only [IPool.init]
+  rw [engage_eq e n he, List.length_reverse, cells_length, Nat.mul_div_cancel n he]
+
+theorem istep_inv {e n : Nat} (he : 0 < e) {s s' : IState} {op : IOp} {ret : Option Nat} (hi : IInv e n s)
+    (hs : istep s op = some (s', ret)) : IInv e n s' := by
+  obtain ⟨hp, hc, hsz, hel⟩ := hi
+  cases op with
+  | get =>
+    simp only [istep, IPool.get, Pool.alloc] at hs
+    cases hf : s.pool.head.free with
+    | nil =>
+      rw [hf] at hs; simp only at hs; cases hs
+      refine ⟨?_, ?_, hsz, hel⟩
+      · simpa [PInv, hf] using hp
+      · simpa [hf] using hc
+    | cons c rest =>
+      rw [hf] at hs; simp only at hs; cases hs
+      refine ⟨?_, ?_, hsz, hel⟩
+      · unfold PInv at *; simp only at *; rw [hf] at hp; exact (List.perm_middle).trans hp
+      · simp only; rw [hc, hf]; simp
+  | put c =>
+    cases c with
+    | none => simp only [istep, IPool.put] at hs; cases hs; exact ⟨hp, hc, hsz, hel⟩
+    | some c =>
+      simp only [istep] at hs
+      split at hs
+      · rename_i hcl
+        have hc' : c ∈ s.live := by simpa using hcl
+        simp only [IPool.put, Pool.release] at hs
+        by_cases hcs : c < s.pool.size
+        · rw [if_pos hcs] at hs; simp only at hs; cases hs
+          refine ⟨?_, ?_, hsz, hel⟩
+          · unfold PInv at *; simp only at *
+            have h1 : (c :: s.live.erase c).Perm s.live := (List.perm_cons_erase hc').symm
+            have h2 : (c :: s.pool.head.free ++ s.live.erase c).Perm (s.pool.head.free ++ c :: s.live.erase c) := by
+              simpa using (List.perm_middle (l₁ := s.pool.head.free) (a := c) (l₂ := s.live.erase c)).symm
+            exact h2.trans ((List.Perm.append_left _ h1).trans hp)
+          · simp only; rw [hc]; simp
+        · rw [if_neg hcs] at hs; cases hs
+      · cases hs
+
+theorem irun_inv {e n : Nat} (he : 0 < e) {ops : List IOp} {s s' : IState} (hi : IInv e n s)
+    (hr : irun s ops = some s') : IInv e n s' := by
+  induction ops generalizing s with
+  | nil => simp only [irun] at hr; cases hr; exact hi
+  | cons op ops ih =>
+    simp only [irun] at hr
+    split at hr
+    · cases hr
+    · rename_i s1 ret hs
+      exact ih (istep_inv he hi hs) hr
+
+/-! static_object_pool -/
+
+def SInv (e n : Nat) (s : SOP) : Prop := PInv e n ⟨s.head, s.objs⟩ ∧ s.fault = false
+
+theorem sstep_inv {e n : Nat} (he : 0 < e) {s s' : SOP} {op : SOp} {ret : Option Nat} (hi : SInv e n s)
+    (hs : sstep s op = some (s', ret)) : SInv e n s' := by
+  obtain ⟨hp, hf⟩ := hi
+  cases op with
+  | create =>
+    simp only [sstep, SOP.create, Pool.alloc] at hs
+    cases hfr : s.head.free with
+    | nil =>
+      rw [hfr] at hs; simp only [Option.some.injEq, Prod.mk.injEq] at hs
+      obtain ⟨rfl, rfl⟩ := hs
+      exact ⟨by simpa [PInv, hfr] using hp, hf⟩
+    | cons c rest =>
+      rw [hfr] at hs; simp only [Option.some.injEq, Prod.mk.injEq] at hs
+      obtain ⟨rfl, rfl⟩ := hs
+      have hfacts := PInv.facts he hp
+      refine ⟨?_, ?_⟩
+      · unfold PInv at *; simp only at *; rw [hfr] at hp; exact (List.perm_middle).trans hp
+      · simp only [hf, Bool.false_or]
+        have : c ∉ s.objs := fun hc => hfacts.2.2.1 c hc (by simp [hfr])
+        simpa using this
+  | destroy c =>
+    simp only [sstep] at hs
+    split at hs
+    · rename_i hcl
+      have hc' : c ∈ s.objs := by simpa using hcl
+      simp only [Option.some.injEq, Prod.mk.injEq] at hs
+      obtain ⟨rfl, rfl⟩ := hs
+      refine ⟨?_, ?_⟩
+      · unfold PInv at *; simp only [SOP.destroy, Pool.release] at *
+        have h1 : (c :: s.objs.erase c).Perm s.objs := (List.perm_cons_erase hc').symm
+        have h2 : (c :: s.head.free ++ s.objs.erase c).Perm (s.head.free ++ c :: s.objs.erase c) := by
+          simpa using (List.perm_middle (l₁ := s.head.free) (a := c) (l₂ := s.objs.erase c)).symm
+        exact h2.trans ((List.Perm.append_left _ h1).trans hp)
+      · simp only [SOP.destroy, hf, Bool.false_or]; simpa using hc'
+    · cases hs
+
+theorem srun_inv {e n : Nat} (he : 0 < e) {ops : List SOp} {s s' : SOP} (hi : SInv e n s)
+    (hr : srun s ops = some s') : SInv e n s' := by
+  induction ops generalizing s with
+  | nil => simp only [srun] at hr; cases hr; exact hi
+  | cons op ops ih =>
+    simp only [srun] at hr
+    split at hr
+    · cases hr
+    · rename_i s1 ret hs
+      exact ih (sstep_inv he hi hs) hr
+
+theorem storageSize_pos (a b : Nat) : 8 ≤ storageSize a b := by
+  unfold storageSize
+  simp only
+  have h1 : 8 ≤ max b 8 := Nat.le_max_right _ _
+  have h2 : 8 ≤ max a 8 := Nat.le_max_right _ _
+  generalize max a 8 = x at *
+  generalize max b 8 = y at *
+  have : 1 ≤ (x + y - 1) / y := by
+    rw [Nat.le_div_iff_mul_le (by omega)]; omega
+  calc 8 ≤ 1 * y := by omega
+    _ ≤ (x + y - 1) / y * y := Nat.mul_le_mul_right y this
+
+
+theorem malloc_ret_none_lim {cfg h n} (hr : (malloc cfg h n).ret = none) : cfg.lim ≠ 0 := by
+  generalize hm : malloc cfg h n = r at hr ⊢
+  unfold malloc at hm
+  simp only at hm
+  split at hm
+  · subst hm; cases hr
+  · split at hm
+    · split at hm <;> (subst hm; cases hr)
+    · split at hm
+      · rename_i hl; exact hl.1
+      · subst hm; cases hr
+
+theorem storageSize_ge (a b : Nat) : max a 8 ≤ storageSize a b := by
+  unfold storageSize
+  simp only
+  have h1 : 8 ≤ max b 8 := Nat.le_max_right _ _
+  generalize max a 8 = x at *
+  generalize max b 8 = y at *
+  have h2 := Nat.div_add_mod (x + y - 1) y
+  have h3 := Nat.mod_lt (x + y - 1) (by omega : y > 0)
+  rw [Nat.mul_comm]
+  omega
+
+theorem prun_allocs {e n : Nat} (he : 0 < e) : ∀ (k : Nat) (s s' : PState), PInv e n s →
+    prun s (List.replicate k .alloc) = some s' → s'.live.length = min (s.live.length + k) n := by
+  intro k
+  induction k with
+  | zero =>
+    intro s s' hi hr
+    simp only [List.replicate, prun] at hr; cases hr
+    have := (PInv.facts he hi).2.2.2.2
+    omega
+  | succ k ih =>
+    intro s s' hi hr
+    simp only [List.replicate, prun] at hr
+    split at hr
+    · cases hr
+    · rename_i s1 ret hs
+      have hi1 := pstep_inv hi hs
+      have := ih s1 s' hi1 hr
+      have hf := (PInv.facts he hi).2.2.2.2
+      have hf1 := (PInv.facts he hi1).2.2.2.2
+      simp only [pstep, Pool.alloc] at hs
+      cases hfr : s.pool.free with
+      | nil =>
+        rw [hfr] at hs; simp only [Option.some.injEq, Prod.mk.injEq] at hs
+        obtain ⟨rfl, _⟩ := hs
+        simp only [hfr, List.length_nil] at hf
+        simp only at this; omega
+      | cons c rest =>
+        rw [hfr] at hs; simp only [Option.some.injEq, Prod.mk.injEq] at hs
+        obtain ⟨rfl, _⟩ := hs
+        simp only [List.length_cons] at this hf1 ⊢
+        omega
+
 end Igris.C10
